@@ -191,6 +191,39 @@ func (e *Engine) mapStore(s *State, m Mp, k, v Value, where string) {
 	s.Objs[m.Obj] = nd
 }
 
+// mapStoreIf inserts k->v only when cond holds (no forking); values must be mergeable.
+func (e *Engine) mapStoreIf(s *State, m Mp, k, v Value, cond *Term, where string) {
+	old := e.mapData(s, m)
+	nd := &MapData{Slots: append([]MapSlot(nil), old.Slots...)}
+	found := False
+	hits := make([]*Term, len(nd.Slots))
+	for i, sl := range nd.Slots {
+		h := And(sl.Occ, eqVal(sl.K, k))
+		if h != False && h != True {
+			h = e.decide(s, h)
+		}
+		hits[i] = h
+		found = Or(found, h)
+	}
+	for i, sl := range nd.Slots {
+		if hits[i] == False {
+			continue
+		}
+		nv, ok := iteVal(And(cond, hits[i]), v, sl.V)
+		if !ok {
+			panic(engErr("conditional map insert with unmergeable values at " + where))
+		}
+		nd.Slots[i] = MapSlot{Occ: sl.Occ, K: sl.K, V: nv}
+	}
+	if found != True {
+		if len(nd.Slots) >= mapCap {
+			panic(engErr("map capacity exceeded at " + where))
+		}
+		nd.Slots = append(nd.Slots, MapSlot{Occ: And(cond, Not(found)), K: k, V: v})
+	}
+	s.Objs[m.Obj] = nd
+}
+
 func (e *Engine) mapDelete(s *State, m Mp, k Value) {
 	if m.Nil {
 		return
@@ -286,9 +319,12 @@ func (e *Engine) next(s *State, f *Frame, x *ssa.Next) (forks []*State, stop boo
 		for _, p := range it.Seen {
 			cons = append(cons, Not(Eq(c, p)))
 		}
-		var kv, vv Value = zero(mt.Key()), zero(mt.Elem())
-		occ := False
-		for i := len(md.Slots) - 1; i >= 0; i-- {
+		// the values seen when the iteration is over are never used: start the selection chain
+		// from the last slot instead of the zero value (keeps constant lengths constant)
+		last := len(md.Slots) - 1
+		var kv, vv Value = md.Slots[last].K, md.Slots[last].V
+		occ := And(Eq(c, BVu(uint64(last), 8)), md.Slots[last].Occ)
+		for i := last - 1; i >= 0; i-- {
 			is := Eq(c, BVu(uint64(i), 8))
 			kv, _ = iteVal(is, md.Slots[i].K, kv)
 			vv, _ = iteVal(is, md.Slots[i].V, vv)
